@@ -238,6 +238,29 @@ func gen(repo string, w *bytes.Buffer) error {
 	fmt.Fprintf(w, "(* UnmarshalLegacy: `if val, ok := attrs[K]; ok { DEST = conv(val) }` in statement order. *)\n")
 	fmt.Fprintf(w, "Definition legacy_reads : list (str * (str * str)) := %s.\n\n", tutil.CoqList(legacyReads))
 
+	// parseAttrsLegacy / UnmarshalLegacy: the strings.* calls, in source order
+	// (Split on " ", TrimSpace, Index of "=", Split on "@").
+	var parseCalls []string
+	for _, fn := range []string{"parseAttrsLegacy", "UnmarshalLegacy"} {
+		fd := tutil.FindFunc(fm, fn)
+		if fd == nil {
+			e.add("function %s not found", fn)
+			continue
+		}
+		ast.Inspect(fd.Body, func(n ast.Node) bool {
+			if c, ok := n.(*ast.CallExpr); ok {
+				if sel, ok := c.Fun.(*ast.SelectorExpr); ok {
+					if id, ok := sel.X.(*ast.Ident); ok && id.Name == "strings" {
+						parseCalls = append(parseCalls, exprText(c))
+					}
+				}
+			}
+			return true
+		})
+	}
+	fmt.Fprintf(w, "(* strings.* calls of parseAttrsLegacy and UnmarshalLegacy, in source order. *)\n")
+	fmt.Fprintf(w, "Definition legacy_parser_calls : list str := %s.\n\n", tutil.CoqTextList(parseCalls))
+
 	// Marshal: the interface-version switch `a.IfVer < N`.
 	thr, thrOp := int64(7), "?"
 	if mm := tutil.FindMethod(fm, "Attributes", "Marshal"); mm == nil {
@@ -408,6 +431,7 @@ func gen(repo string, w *bytes.Buffer) error {
 	// variable names, the index into strings.Split(SSH_CONNECTION, " ").
 	var fieldSrc []string
 	connIdx := int64(0)
+	foundConnIdx := false
 	var envNames []string
 	parseIPChecked := false
 	if nf := tutil.FindFunc(fp, "NewReqParam"); nf == nil {
@@ -437,6 +461,7 @@ func gen(repo string, w *bytes.Buffer) error {
 				if c, ok := x.X.(*ast.CallExpr); ok && isSel(c.Fun, "strings", "Split") {
 					if v, ok := intLit(x.Index); ok {
 						connIdx = v
+						foundConnIdx = true
 					} else {
 						e.add("NewReqParam: strings.Split(...)[i] with non-literal i")
 					}
@@ -445,10 +470,14 @@ func gen(repo string, w *bytes.Buffer) error {
 			return true
 		})
 	}
+	if !foundConnIdx {
+		e.add("NewReqParam: strings.Split(sshConnection, \" \")[i] with a literal i not found")
+	}
 	fmt.Fprintf(w, "(* NewReqParam: ReqParam{field: expression} of the returned literal. *)\n")
 	fmt.Fprintf(w, "Definition req_param_sources : list (str * str) := %s.\n", tutil.CoqList(fieldSrc))
 	fmt.Fprintf(w, "Definition req_param_env_names : list str := %s.\n", tutil.CoqTextList(envNames))
 	fmt.Fprintf(w, "Definition conn_field_index : nat := %d%%nat.\n", connIdx)
+	fmt.Fprintf(w, "Definition conn_field_is_indexed_split : bool := %s.\n", coqBool(foundConnIdx))
 	fmt.Fprintf(w, "Definition client_ip_checked_with_parse_ip : bool := %s.\n\n", coqBool(parseIPChecked))
 
 	// ---- common/nspolicy.go ----------------------------------------------
